@@ -162,6 +162,76 @@ def live_peer_never_dropped(fl: int, ws: int, ci: int, d1: int, d2: int, s: int,
     return verdict(untraced(_live_peer, fl, ws, ci, d1, d2, s, monitor, do_send))
 
 
+def _slow_upgrade(fl, ci, start, dur, monitor):
+    """A polling client starts the WebSocket upgrade ``start`` seconds after its OPEN and takes ``dur`` seconds to finish the
+    handshake (slow network: probe answered, UPGRADE frame late), so that a PING may fall due while the session is in the
+    middle of it. The peer is alive: it answers every PING it is handed at once. The heartbeat goes on: a PING reaches the
+    client no later than the end of the handshake (or ping_interval after the OPEN, whichever is later), the next one
+    ping_interval after its PONG, and the session is never dropped."""
+    pi, pt = CFG[ci]
+    sut = mk(fl, async_handlers=False, ping_interval=pi, ping_timeout=pt, monitor_clients=monitor)
+    try:
+        t0 = sut.k.now
+        cl = _Client(sut, False)
+        st = dict(flavour=sut.flavour, cfg='%d/%d' % (pi, pt), monitor=bool(monitor), slow_upgrade=True)
+        if start + dur >= pi + pt or start > pi:
+            return ''           # the PONG could not reach the server within ping_timeout of the PING: not a live peer
+        _run_to(sut, cl, t0 + start)
+        if [1 for t, ty in cl.rx if ty == 2]:
+            cl.pong()
+            return ''           # the PING came before the upgrade began: the plain live-peer condition covers it
+        u = sut.ws_upgrade(cl.sid)
+        sut.settle()
+        u.peer.send('2probe')
+        sut.settle()
+        cl.collect()
+        _run_to(sut, cl, t0 + start + dur)
+        u.peer.send('5')
+        sut.settle()
+        cl.collect()
+        if sut.transport(cl.sid) != 'websocket':
+            return ''           # (C06 decides the handshake itself)
+        cl.ws, cl.peer, cl.seen, cl.poll = True, u.peer, 1, None
+        cl.collect()
+        tc = sut.k.now
+        _run_to(sut, cl, max(tc, t0 + pi))
+        pings = [t for t, ty in cl.rx if ty == 2]
+        disc = [a for k, sid, a in sut.events if k == 'disconnect']
+        if disc:
+            return fail(PROP, 'LIVE-PEER-DROPPED', 'upgrade from +%d to +%d: session dropped (%r) although no PING had reached the peer yet' % (
+                start, start + dur, disc), **st)
+        if len(pings) != 1:
+            return fail(PROP, 'PING-SCHEDULE', 'upgrade from +%d to +%d (interval %d): PINGs received at %r, expected exactly one by +%d' % (
+                start, start + dur, pi, [t - t0 for t in pings], max(tc, t0 + pi) - t0), **st)
+        cl.pong()
+        last = sut.k.now
+        _run_to(sut, cl, last + pi)
+        pings = [t for t, ty in cl.rx if ty == 2]
+        disc = [a for k, sid, a in sut.events if k == 'disconnect']
+        if disc:
+            return fail(PROP, 'LIVE-PEER-DROPPED', 'upgrade from +%d to +%d, PONG sent at once: dropped with %r' % (start, start + dur, disc), **st)
+        if len(pings) != 2 or pings[-1] != last + pi:
+            return fail(PROP, 'PING-SCHEDULE', 'after the slow upgrade: PONG at +%d, PINGs at %r, expected the next at +%d' % (
+                last - t0, [t - t0 for t in pings], last + pi - t0), **st)
+        cl.pong()
+        _run_to(sut, cl, sut.k.now + max(0, pi - 1))        # (stops before the next PING, which nobody would answer, is due)
+        disc = [a for k, sid, a in sut.events if k == 'disconnect']
+        if disc:
+            return fail(PROP, 'LIVE-PEER-DROPPED', 'after the slow upgrade and two answered PINGs: dropped with %r' % (disc,), **st)
+        return ''
+    finally:
+        sut.close()
+
+
+@cond(quick=dict(timeout=170, parts=dict(FL=[0, 1])), thorough=dict(timeout=600, parts=dict(FL=[0, 1])))
+def heartbeat_across_slow_upgrade(fl: int, ci: int, start: int, dur: int, monitor: bool) -> str:
+    """
+    pre: fl == P.FL and 1 <= ci < len(CFG) and 0 <= start <= 8 and 0 <= dur <= 12
+    post: _ == ''
+    """
+    return verdict(untraced(_slow_upgrade, fl, ci, start, dur, monitor))
+
+
 def _dead_peer(fl, ws, ci, answered, d, monitor, send_at1, phase, polls):
     send_at = send_at1 - 1
     """The peer answers ``answered`` PINGs (0 or 1, after delay d <= timeout) and then goes silent."""
